@@ -21,6 +21,24 @@ from ..dataflow import DefUse
 from ..guards import facts
 
 
+def facts_full(test, polarity=True):
+  """Like guards.facts, but a sub-test that cannot be decomposed on this side (`a or b` known true,
+  `a and b` known false) is kept as one atom instead of being dropped."""
+  out = []
+  def go(e, pol):
+    if isinstance(e, ast.UnaryOp) and isinstance(e.op, ast.Not):
+      go(e.operand, not pol)
+      return
+    if isinstance(e, ast.BoolOp):
+      if (isinstance(e.op, ast.And) and pol) or (isinstance(e.op, ast.Or) and not pol):
+        for v in e.values:
+          go(v, pol)
+        return
+    out.append((e, pol))
+  go(test, polarity)
+  return out
+
+
 class Leaf(object):
   """One expression a value may come from. `nid`: CFG node where `expr` is evaluated; `chain`:
   every node passed while following locals (use site first); `conds`: (test, polarity, nid) of
@@ -67,6 +85,7 @@ class Flow(object):
     self.params = set(all_params(fn.node))
     self._where = None
     self._rcache = {}
+    self._hpreds = None
 
   # ---------------------------------------------------------------- positions
   def where(self, node):
@@ -107,8 +126,12 @@ class Flow(object):
     todo = [nid]
     while todo:
       x = todo.pop()
-      for p in cfg.pred[x]:
-        if p in defs and (p, x) not in cfg.exc_edges:
+      preds = cfg.pred[x]
+      if cfg.nodes[x].kind == "handler":
+        preds = set(preds) | self._handler_preds(x)
+      for p in preds:
+        if p in defs and (p, x) not in cfg.exc_edges and \
+            not (cfg.nodes[x].kind == "handler" and p not in cfg.pred[x]):
           out.add(p)
           continue
         if p in seen:
@@ -119,6 +142,27 @@ class Flow(object):
         todo.append(p)
     self._rcache[key] = (out, entry)
     return out, entry
+
+  def _handler_preds(self, hid):
+    """In the normal CFG an `except` clause has no predecessor unless the try body raises
+    explicitly: for reaching definitions, control may arrive from any node of the guarded body
+    (before or after its own binding took effect) and from whatever precedes the try."""
+    if self._hpreds is None:
+      self._hpreds = {}
+    if hid in self._hpreds:
+      return self._hpreds[hid]
+    cfg = self.cfg
+    h = cfg.nodes[hid].stmt
+    out = set()
+    for t in ast.walk(self.fn.node):
+      if isinstance(t, ast.Try) and any(x is h for x in t.handlers):
+        ids = {id(x) for b in t.body for x in ast.walk(b)}
+        body = {n.id for n in cfg.nodes if n.stmt is not None and id(n.stmt) in ids}
+        out |= body
+        for b in body:
+          out |= {p for p in cfg.pred[b] if p not in body}
+    self._hpreds[hid] = out
+    return out
 
   def _value_in(self, stmt, name):
     """Value expression bound to `name` by a simple statement, or None."""
@@ -308,6 +352,20 @@ class Flow(object):
       starts |= set(cfg.normal_succ(k))
     return nid not in self._cut_reach(starts, edges)
 
+  def edges_where(self, atom, want=True):
+    """CFG edges (if-node id, successor id) on which an expression satisfying atom(expr, if-node
+    id) is known to have truth value `want`."""
+    cfg = self.cfg
+    edges = set()
+    for n in cfg.nodes:
+      if n.kind != "if" or n.id not in cfg.if_true:
+        continue
+      t, f = self._if_edges(n.id)
+      for pol, succs in ((True, t), (False, f)):
+        if any(p == want and atom(e, n.id) for (e, p) in facts(n.stmt.test, pol)):
+          edges |= {(n.id, s) for s in succs}
+    return edges
+
   def required_facts(self, nid):
     """[(expr, polarity, if-node id)]: what every path to nid has established at an `if` (no kill
     analysis: an over-approximation of the conditions a node runs under). A test that cannot be
@@ -323,10 +381,7 @@ class Flow(object):
         if not edges:
           continue
         if nid not in self._cut_reach({cfg.entry.id}, edges):
-          fs = facts(n.stmt.test, pol)
-          if not fs:
-            fs = [(n.stmt.test, pol)]
-          out.extend((e, p, n.id) for (e, p) in fs)
+          out.extend((e, p, n.id) for (e, p) in facts_full(n.stmt.test, pol))
           break
     return out
 
